@@ -40,18 +40,25 @@ from asyncssh.sftp import (SFTPAttrs, SFTPName, SFTPVFSAttrs,  # noqa: E402
 PROPERTY_ID = 'C14'
 LEVEL = 'exploration'
 RULE = ('server: Hypothesis-generated batches of pipelined SFTP requests '
-        '(all 21 request types + 9 extensions, versions 3-6, body valid / '
-        'truncated at a field boundary or byte / trailing bytes / unknown '
-        'type / unknown extension, injected OSError and SFTPError) written '
-        'at the framing level to an asyncssh SFTP server on a temp chroot. '
-        'client: k concurrent SFTPClient calls answered by a scripted peer '
-        'in a generated order with wrong types, unknown and duplicate ids. '
-        'codecs: every attribute flag subset of each version (v6: all 65536 '
-        'in the thorough tier, a 1/16 sample plus all subsets of <=2 or '
-        '>=14 flags in quick) x 3 value profiles against an independent '
-        'struct codec. Non-trivial = k>=2 with a non-identity reply order, '
-        'or a malformed body, or >=3 attribute flags; distinct = canonical '
-        'JSON of the case.')
+        '(all 21 request types + 9 extensions, negotiated version 3-6 with '
+        'either side as the limit, body valid / truncated at a field '
+        'boundary or at a byte / followed by trailing bytes / unknown packet '
+        'type / unknown extension, ids reused and extreme, OSError and '
+        'SFTPError injected through map_path, application-supplied '
+        'SFTPAttrs) written at the framing level, optionally fragmented, to '
+        'an asyncssh SFTP server on a temp chroot. client: k<=10 (16 '
+        'thorough) concurrent SFTPClient/SFTPClientFile calls answered by a '
+        'scripted peer in a generated order, in bursts, with wrong reply '
+        'types, FX_OK for data requests, unknown ids, duplicate ids and '
+        'id-less packets. codecs: every attribute flag subset of each '
+        'version (v6: all 65536 in the thorough tier; a 4096-subset sample '
+        'plus all subsets of <=2 or >=14 flags in quick) x 3 value profiles '
+        '(small, extreme, zero/empty) against an independent struct codec; '
+        'arbitrary field subsets projected to each version; statvfs/limits/'
+        'ranges records. Non-trivial = a malformed request body, or >=2 '
+        'requests pipelined (server), or k>=2 answered in a non-identity '
+        'order or a wrong-type/unknown/duplicate reply (client), or >=3 '
+        'attribute flags (codecs); distinct = canonical JSON of the case.')
 ASSUMPTIONS = ['vf/engines/sftpwire.py transcribes the filexfer drafts '
                '-02/-04/-05/-13 and OpenSSH PROTOCOL correctly (v5 ATTR_BITS '
                'layout excluded from byte comparison: drafts not available '
@@ -1160,6 +1167,7 @@ def run_server(case) -> CaseResult:
                     info = build_request(sess, req)
                     body = b''.join(info['fields'])
                     labels.add('op:' + info['op'])
+                    labels.add('op:%s:v%d' % (info['op'], v))
                     required = sum(len(f) for f in
                                    info['fields'][:info['nreq']])
 
@@ -1280,6 +1288,14 @@ def run_server(case) -> CaseResult:
         if cs.buf:
             raise Violation('reply-framing', '%d stray bytes after the last '
                             'reply' % len(cs.buf), 'reply-framing:stray')
+
+        # let the server run its own cleanup (closes the files it opened)
+        h.call(chan.close)
+        h.pump(chunker)
+
+        if h.loop_errors:
+            raise Violation('loop-error', repr(h.loop_errors[0])[:800],
+                            'server-loop-error')
 
         if fixture_digest(root) != before:
             raise HarnessError('case modified the read-only fixture: %r' %
@@ -1573,8 +1589,15 @@ def server_strategy(tier: str):
 
     @st.composite
     def build(draw):
-        sv = draw(st.sampled_from([3, 4, 5, 6]))
-        cv = draw(st.sampled_from([3, 4, 5, 6, 6, 6, 7, 255]))
+        # negotiated version uniform over 3..6; either side may be the limit
+        v = draw(st.sampled_from([3, 4, 5, 6]))
+
+        if draw(st.booleans()):
+            cv, sv = v, draw(st.integers(v, 6))
+        else:
+            sv = v
+            cv = draw(st.sampled_from(list(range(v, 7)) + [7, 255]))
+
         nopen = draw(st.integers(0, 3))
         batches = []
 
